@@ -13,7 +13,7 @@ RULE = ("contains: containers (IPNetwork with/without host bits, IPRange, IPGlob
         "each container, operands (IPAddress, IPNetwork with/without host bits, IPRange, IPGlob where glob-shaped, address "
         "and CIDR strings) whose end addresses lie in {first-1, first, first+1, last-1, last, last+1} of the container, "
         "plus arena blocks (nested, straddling, disjoint), the same numbers in the other family, and random ones; "
-        "all_/smallest_/largest_matching: candidate lists of length <= 12 (ancestor chains of the address, siblings, "
+        "all_/smallest_/largest_matching: long candidate lists (40..900, thorough ..4000: a few containers among near misses) and lists of length <= 12 (ancestor chains of the address, siblings, "
         "arena blocks, duplicates, host bits, other-family and whole-space blocks, shuffled) handed over as objects, "
         "strings or a mix (host routes also as IPAddress objects / address strings); net_sort_key / sorted_nets tie the modelled sort to the implementation's")
 EXACT = ("contains",)
@@ -477,3 +477,56 @@ _cases_without_life = cases
 def cases(rng, tier):
     yield from _cases_without_life(rng, tier)
     yield from _life.cases(rng, tier, {'glob', 'net', 'range'})
+
+
+# ---- long candidate lists (dozens to thousands): a few true containers of the address among many near misses (host routes
+# and small blocks just below / above the address, siblings of its ancestors, blocks of the other family), shuffled -- a
+# window, bisection or batching shortcut in the matching helpers needs lists of this length
+_cases_without_long = cases
+
+
+def long_candidates(rng, ver, ip, size):
+    w = W[ver]
+    mx = gens.maxint(ver)
+    out = []
+    for p in rng.sample(range(w + 1), rng.randint(0, min(5, w + 1))):           # true containers
+        f, _ = block_of(ver, ip, p)
+        out.append([ver, rng.choice((f, ip)), p])
+    while len(out) < size:
+        r = rng.random()
+        if r < 0.45:        # host routes / small blocks near the address, on either side
+            d = rng.randint(1, 4 * size) * rng.choice((-1, 1))
+            v = min(mx, max(0, ip + d))
+            p = rng.choice((w, w, w, max(0, w - 1), max(0, w - 2)))
+            f, l = block_of(ver, v, p)
+            if not (f <= ip <= l):
+                out.append([ver, v, p])
+        elif r < 0.7:       # the sibling of an ancestor of the address
+            p = rng.randrange(1, w + 1)
+            f, l = block_of(ver, ip, p)
+            nf = f ^ (l - f + 1)
+            if 0 <= nf <= mx:
+                out.append([ver, nf, p])
+        elif r < 0.85:
+            bv, v, p = gens.rand_block(rng, ver)
+            out.append([bv, v, p])
+        else:
+            ov = 10 - ver
+            _, v, p = gens.rand_block(rng, ov)
+            out.append([ov, rng.choice((v, min(ip, gens.maxint(ov)))), p])
+    rng.shuffle(out)
+    return out
+
+
+def cases(rng, tier):
+    yield from _cases_without_long(rng, tier)
+    sizes = [40, 70, 150, 400, 900] if tier == "quick" else [40, 70, 150, 400, 1300, 4000] * 6
+    for size in sizes:
+        for ver in (4, 6):
+            ips = (gens.rand_value(rng, ver), rng.choice((0, gens.maxint(ver), 5, gens.maxint(ver) - 5)), rng.getrandbits(24))
+            for ip in (ips if size < 900 or tier != "quick" else ips[:1]):
+                cands = long_candidates(rng, ver, ip, size)
+                form = rng.choice((0, 0, 1, 2))
+                yield ("all_matching", [ver, ip, cands, form], "all_matching_long")
+                yield ("smallest_matching", [ver, ip, cands, form], "smallest_matching_long")
+                yield ("largest_matching", [ver, ip, cands, form], "largest_matching_long")
